@@ -37,7 +37,7 @@ type rscript struct {
 }
 
 func (g *gen) makeScript() rscript {
-	s := rscript{version: 2 + g.r.Intn(2), seed: g.r.Int63(), mutation: g.r.Intn(25)}
+	s := rscript{version: 2 + g.r.Intn(2), seed: g.r.Int63(), mutation: g.r.Intn(26)}
 	// the kinds that need a particular version or moment come round regularly, whatever the dice say
 	g.dist["reject:scripts"]++
 	switch g.dist["reject:scripts"] % 16 {
@@ -49,6 +49,8 @@ func (g *gen) makeScript() rscript {
 		s.mutation, s.version = 23, 3
 	case 15:
 		s.mutation, s.version = 6, 3
+	case 5:
+		s.mutation = 25
 	}
 	base := 2
 	if s.version == 3 {
@@ -93,10 +95,10 @@ func (g *gen) makeScript() rscript {
 		s.injectAt = 1 + g.r.Intn(14) // during the key exchange
 	}
 	s.target = []string{"A", "B"}[g.r.Intn(2)]
-	if s.mutation == 22 || s.mutation == 23 {
+	if s.mutation == 22 || s.mutation == 23 || s.mutation == 25 {
 		s.injectAt = g.r.Intn(2) // before the conversation has heard anything of its peer (or just the query)
 	}
-	if s.mutation >= 16 && s.mutation != 19 && s.mutation != 22 && s.mutation != 23 {
+	if s.mutation >= 16 && s.mutation != 19 && s.mutation != 22 && s.mutation != 23 && s.mutation != 25 {
 		// needs a data message that has not been delivered yet: just before one of the two final deliveries
 		if g.r.Intn(2) == 0 {
 			s.injectAt, s.target = len(s.steps)-5, "B"
@@ -257,6 +259,18 @@ func (g *gen) craftInjection(sc rscript, pending, seen, sentByTarget [][]byte, t
 			return nil, ""
 		}
 		return tags(0x777+uint32(g.r.Intn(1000)), ts.OurTag+1+uint32(g.r.Intn(1000))), "foreign-session-before-binding"
+	case 25: // a stray piece of somebody's fragment stream that fits nothing collected here (out of sequence:
+		// it is discarded without an error) before the conversation knows its peer
+		if ts.AkeState != 0 || ts.MsgState != 0 || ts.FragIndex != 0 {
+			return nil, ""
+		}
+		if sc.version == 3 {
+			if ts.TheirTag != 0 {
+				return nil, ""
+			}
+			return []byte(fmt.Sprintf("?OTR|%08x|00000000,00002,00003,abcd,", 0x777+uint32(g.r.Intn(1000)))), "stray-out-of-sequence-fragment-before-binding"
+		}
+		return []byte("?OTR,00002,00003,abcd,"), "stray-out-of-sequence-fragment-before-binding"
 	case 24: // a genuine, not yet delivered OTRv3 data message with the receiver instance tag set to zero
 		// ("any instance"): the tag filter lets it through, the authenticator covers the header
 		if sc.version != 3 {
